@@ -232,10 +232,33 @@ class AnnotateModel:
         if len(ps) < 3:
             return False, "fewer than three parameters", fn
         ST, EN, TX = ps[0], ps[1], ps[2]
+        from .paths import enumerate_paths as _ep
+
+        def _names_slice_now(ret: ast.Return, name: str) -> bool:
+            """on every path to `ret`, `name` was last assigned text[start:end] and neither start nor end changed since"""
+            seen = False
+            for p_ in _ep(fn.body):
+                if p_.exit != "return" or p_.exit_node is not ret:
+                    continue
+                seen = True
+                valid = False
+                for ev in p_.events:
+                    if ev[0] != "stmt":
+                        continue
+                    an_ = assigned_names(ev[1])
+                    if name in an_:
+                        valid = isinstance(ev[1], ast.Assign) and norm(ev[1].value) == f"{TX}[{ST}:{EN}]"
+                    elif ST in an_ or EN in an_:
+                        valid = False
+                if not valid:
+                    return False
+            return seen
+
         for r in [n for n in walk_local(fn) if isinstance(n, ast.Return)]:
             v = r.value
-            if not (isinstance(v, ast.Tuple) and len(v.elts) == 3 and norm(v.elts[0]) == ST and norm(v.elts[1]) == EN
-                    and norm(v.elts[2]) == f"{TX}[{ST}:{EN}]"):
+            third_ok = isinstance(v, ast.Tuple) and len(v.elts) == 3 and (norm(v.elts[2]) == f"{TX}[{ST}:{EN}]" or (
+                isinstance(v.elts[2], ast.Name) and _names_slice_now(r, v.elts[2].id)))
+            if not (isinstance(v, ast.Tuple) and len(v.elts) == 3 and norm(v.elts[0]) == ST and norm(v.elts[1]) == EN and third_ok):
                 return False, f"return is not (start, end, text[start:end]): {norm(v) if v else None}", fn
         if any(TX in assigned_names(s) for s in stmts_local(fn.body)):
             return False, "the text parameter is rebound", fn
